@@ -860,8 +860,8 @@ func pools(thorough bool) []Pool {
 }
 
 func describe(r *ev.Run) {
-	r.Rule("E1: BFS to fixpoint over the real prefix plugin. Ops per client {A,B}(+C thorough): SOLICIT with one IA_PD carrying hint list in {none, ::/0, length-only (page, page-8, page+8), own 1st/2nd lease, other client's lease, highest free block (also with a longer length), out-of-pool, two free blocks, own+free, own1+own2, two ::/0}, no IA_PD, no client-id; thorough adds two IA_PDs, REQUEST/RENEW, relay depth 1. State-dependent hints are resolved from the ghost. Requests are raw wire bytes parsed by the library. State key = handler records + bitmap (hook H4) + ghost of prefixes told per client. Class = message shape/outcome.")
-	r.Assume("no lease expiry exists in the plugin; lifetimes compared one-sidedly against the harness clock; pools of 2-4 blocks; the exploration runs in a worker process so that a fatal error of the code under test is reported, not suffered")
+	r.Rule("E1: BFS to fixpoint over the real prefix plugin. Ops per client {A,B}(+C thorough): SOLICIT with one IA_PD carrying hint list in {none, ::/0, length-only (page, page-8, page+8), own 1st/2nd lease, other client's lease, highest free block (also with a longer length), out-of-pool, two free blocks, own+free, own1+own2, two ::/0}, no IA_PD, no client-id; IA_PD T1/T2 variants, RENEW/REQUEST/REBIND/RELEASE/CONFIRM/INFORMATION-REQUEST (for the last three only the safety clauses are asserted), own-address hints with a shorter/longer length, the same client through different relay agents, two/three IA_PDs, all leases aged by an hour / by two days; thorough adds a third client. Sweeps: one client with 1..12 prefixes; time gaps of 1 s .. 25 h between messages; six non-canonical spellings of the pool; every other option code in 3 payload shapes (irrelevant-option closure). State-dependent hints are resolved from the ghost. Requests are raw wire bytes parsed by the library. State key = handler records + bitmap (hook H4) + ghost of prefixes told per client. Class = message shape/outcome.")
+	r.Assume("the plugin never reclaims a delegation (the statement says 'for as long as the server runs'); lifetimes compared one-sidedly against the harness clock; pools of 2-4 blocks; the exploration runs in a worker process so that a fatal error of the code under test is reported, not suffered")
 }
 
 func run(r *ev.Run, id string) {
